@@ -30,7 +30,9 @@ CONSTANTS NMAX,     \* window sizes 1..NMAX, slides 1..size
           ITERS,    \* iterations
           KEYS,     \* keys, e.g. {0} or {1, 2}
           EXACTS,   \* subset of BOOLEAN: the modes explored
-          TIMEDS    \* subset of BOOLEAN: FALSE Item elements, TRUE Timestamped(id, ts = id)
+          TIMEDS,   \* subset of BOOLEAN: FALSE Item elements, TRUE Timestamped(id, ts = 2 * id)
+          MAXW      \* timed only: at most MAXW watermarks per iteration (the manager ignores them;
+                    \* they matter for the timestamp of the end-of-iteration result, finding F5)
 
 ---------------------------------------------------------------------------
 (* the transducer *)
@@ -65,14 +67,15 @@ VARIABLES p,      \* [n, s, exact, timed], chosen initially
           inp, outs,
           it,     \* iterations completed
           cnt,    \* data elements fed in the current iteration
+          nw,     \* watermarks fed in the current iteration
           nid,    \* next element id
           done
-vars == <<p, live, st, inp, outs, it, cnt, nid, done>>
+vars == <<p, live, st, inp, outs, it, cnt, nw, nid, done>>
 
 Init ==
   /\ p \in {q \in [n : 1..NMAX, s : 1..NMAX, exact : EXACTS, timed : TIMEDS] : q.s <= q.n}
   /\ live = {} /\ st = [k \in KEYS |-> CountInit]
-  /\ inp = <<>> /\ outs = <<>> /\ it = 0 /\ cnt = 0 /\ nid = 1 /\ done = FALSE
+  /\ inp = <<>> /\ outs = <<>> /\ it = 0 /\ cnt = 0 /\ nw = 0 /\ nid = 1 /\ done = FALSE
 
 (* ascending list of a finite set of integers *)
 RECURSIVE SortedSeq(_)
@@ -86,13 +89,13 @@ CtrlOuts(ks, e) ==
 
 Feed(key) ==
   /\ ~done /\ it < ITERS /\ cnt < LMAX
-  /\ LET e == IF p.timed THEN El("T", key, nid, nid, 0, 0, 0) ELSE El("I", key, nid, 0, 0, 0, 0)
+  /\ LET e == IF p.timed THEN El("T", key, nid, 2 * nid, 0, 0, 0) ELSE El("I", key, nid, 0, 0, 0, 0)
          r == CountStep(p, st[key], e)
      IN /\ st' = [st EXCEPT ![key] = r.st]
         /\ inp' = Append(inp, e)
         /\ outs' = Append(outs, [j \in 1..Len(r.out) |-> Res(key, r.out[j].g, r.out[j].ts)])
   /\ live' = live \cup {key} /\ cnt' = cnt + 1 /\ nid' = nid + 1
-  /\ UNCHANGED <<p, it, done>>
+  /\ UNCHANGED <<p, it, nw, done>>
 
 Control(e) ==
   /\ inp' = Append(inp, e)
@@ -100,17 +103,24 @@ Control(e) ==
   /\ st' = [k \in KEYS |-> IF k \in live THEN CountStep(p, st[k], e).st ELSE st[k]]
   /\ UNCHANGED <<p, live, nid>>
 
+(* a watermark above every timestamp fed so far (and below the next one), after a data element *)
+Wm ==
+  /\ ~done /\ it < ITERS /\ p.timed /\ nw < MAXW
+  /\ inp # <<>> /\ IsData(inp[Len(inp)])
+  /\ Control(El("W", 0, 0, 2 * nid - 1, 0, 0, 0))
+  /\ nw' = nw + 1 /\ UNCHANGED <<it, cnt, done>>
+
 EndIter ==
   /\ ~done /\ it < ITERS
   /\ Control(El("R", 0, 0, 0, 0, 0, 0))
-  /\ it' = it + 1 /\ cnt' = 0 /\ UNCHANGED done
+  /\ it' = it + 1 /\ cnt' = 0 /\ nw' = 0 /\ UNCHANGED done
 
 Term ==
   /\ ~done /\ it = ITERS
   /\ Control(El("X", 0, 0, 0, 0, 0, 0))
-  /\ done' = TRUE /\ UNCHANGED <<it, cnt>>
+  /\ done' = TRUE /\ UNCHANGED <<it, cnt, nw>>
 
-Next == (\E key \in KEYS : Feed(key)) \/ EndIter \/ Term
+Next == (\E key \in KEYS : Feed(key)) \/ Wm \/ EndIter \/ Term
 Spec == Init /\ [][Next]_vars
 
 ---------------------------------------------------------------------------
@@ -120,6 +130,8 @@ C12_Content  == Only("count_group_content") = {}
 C12_Position == Only("count_group_position") = {}
 C12_EndFlush == Only("count_end_flush") = {}
 C12_Mixed    == Only("count_mixed_keys") = {}
+(* C06 at the operator output: fails on the code as written for timed inputs with a watermark (F5) *)
+C06_LateResult == LateResultViol(inp, outs) = {}
 C12_All == LET v == Viol IN IF v = {} THEN TRUE ELSE PrintT(<<"MODELVIOL", v>>) /\ FALSE
 
 TypeOK == \A k \in KEYS : Len(st[k]) <= (p.n + p.s - 1) \div p.s
